@@ -351,3 +351,27 @@ func reachableReturns(f *ssa.Function, keep func(cond ssa.Value, takenTrue bool)
 	}
 	return out
 }
+
+// reachableBlocks: blocks reachable from the entry when If edges for which
+// keep(cond, takenTrue) is false are removed.
+func reachableBlocks(f *ssa.Function, keep func(cond ssa.Value, takenTrue bool) bool) map[*ssa.BasicBlock]bool {
+	seen := map[*ssa.BasicBlock]bool{f.Blocks[0]: true}
+	work := []*ssa.BasicBlock{f.Blocks[0]}
+	for len(work) > 0 {
+		b := work[len(work)-1]
+		work = work[:len(work)-1]
+		last := b.Instrs[len(b.Instrs)-1]
+		for i, s := range b.Succs {
+			if ifi, ok := last.(*ssa.If); ok && b.Succs[0] != b.Succs[1] {
+				if !keep(ifi.Cond, i == 0) {
+					continue
+				}
+			}
+			if !seen[s] {
+				seen[s] = true
+				work = append(work, s)
+			}
+		}
+	}
+	return seen
+}
